@@ -208,7 +208,7 @@ def devQuery (vis all : List String) : Query → List String
   | .setop first rest => devBranch vis all first ++ devOpBranches vis all rest
   | .withq cs body => let r := devCtes vis all cs; r.1 ++ devQuery r.2 all body
 def devBranch (vis all : List String) : Branch → List String
-  | .mk q _ => (match q with | .select .. => [] | _ => ["D7"]) ++ devQuery vis all q
+  | .mk q _ => (match q with | .select .. => [] | _ => ["D7s"]) ++ devQuery vis all q
 def devOpBranches (vis all : List String) : List OpBranch → List String
   | [] => []
   | .mk _ b :: r => devBranch vis all b ++ devOpBranches vis all r
